@@ -328,10 +328,10 @@ def check_C14(ctx):
     thorough = ctx.tier == "thorough"
     for m in ("PathString", "Samples", "HitObjectLine", "Trace_HitObjectLine"):
         sany(ctx, m)
-    plan = [("typesquick", 0, 1), ("combo", 0, 3), ("num", 0, 2), ("bank", 0, 1), ("nodes", 0, 1),
+    plan = [("typesquick", 0, 1), ("combo", 0, 3), ("num", 0, 2), ("bank", 0, 1), ("nodes", 0, 1), ("nodes2", 0, 2),
             ("pathx", 3, 1), ("path", 4, 1), ("pseg", 0, 1), ("pbig", 0, 1), ("pdeep", 7, 1)]
     if thorough:
-        plan = [("typesfull", 0, 1), ("typesquick", 0, 1), ("combo", 0, 4), ("num", 0, 3), ("bank", 0, 2), ("nodes", 0, 2),
+        plan = [("typesfull", 0, 1), ("typesquick", 0, 1), ("combo", 0, 4), ("num", 0, 3), ("bank", 0, 2), ("nodes", 0, 2), ("nodes2", 0, 3),
                 ("pathx", 4, 1), ("path", 5, 1), ("pathr", 6, 1), ("pseg", 0, 2), ("pbig", 0, 2), ("pdeep", 8, 1)]
     for (a, n, ml) in plan:
         f = hitobj_cases(ctx, a, n, ml)
@@ -365,7 +365,8 @@ def check_C06(ctx):
         sany(ctx, m)
     # the model of the code as pinned (scratch list not cleared) violates the property: keep that on record
     hitobj_cases(ctx, "residue", 4, 2, clear=False, emit=False, invariants=("RejectedHaveNoEffect",), expect_violation=True)
-    plan = [("residue", 4, 2), ("combo", 0, 3), ("num", 0, 2), ("nodes", 0, 2 if thorough else 1), ("bank", 0, 2 if thorough else 1)]
+    plan = [("residue", 4, 2), ("combo", 0, 3), ("num", 0, 2), ("nodes", 0, 2 if thorough else 1), ("bank", 0, 2 if thorough else 1),
+            ("nodes2", 0, 3 if thorough else 2)]
     if thorough:
         plan += [("path", 4, 1)]
         # three-line histories over the reduced residue alphabet: model checking only (5 M states; the replay of the two-line
